@@ -147,11 +147,11 @@ def showParse : Option (List Line) → String
     s!"parse=ok lines={ls.length} samples={samples.length} pairs={pairs.length} values=" ++
       ",".intercalate (pairs.map (fun p => toHex p.1 ++ "=" ++ toHex p.2))
 
-def runProm (esc : Bool) (calls : List Call) : String :=
-  let text := render esc calls
+def runProm (esc group : Bool) (calls : List Call) : String :=
+  let text := renderV esc group calls
   s!"x{toHex text} {showParse (parse text)}"
 
-def runCase (v : Bmp.Variant) (esc : Bool) (line : String) : String :=
+def runCase (v : Bmp.Variant) (esc group : Bool) (line : String) : String :=
   match line.splitOn "|" with
   | ["w", _tmpl, keys, evs] =>
     (match (if keys == "" then some [] else (keys.splitOn ",").mapM (·.toNat?)), (words evs).mapM parseEv with
@@ -159,18 +159,18 @@ def runCase (v : Bmp.Variant) (esc : Bool) (line : String) : String :=
      | _, _ => "bad-case")
   | ["p", calls] =>
     (match (if calls == "" then some [] else (calls.splitOn ";").mapM parseCall) with
-     | some cs => runProm esc cs
+     | some cs => runProm esc group cs
      | none => "bad-case")
   | _ => "bad-case"
 
-partial def loop (v : Bmp.Variant) (esc : Bool) (h : IO.FS.Stream) (out : IO.FS.Stream) : IO Unit := do
+partial def loop (v : Bmp.Variant) (esc group : Bool) (h : IO.FS.Stream) (out : IO.FS.Stream) : IO Unit := do
   let line ← h.getLine
   if line.isEmpty then return ()
-  out.putStrLn (runCase v esc (line.trimAscii.toString))
-  loop v esc h out
+  out.putStrLn (runCase v esc group (line.trimAscii.toString))
+  loop v esc group h out
 
 def main (args : List String) : IO Unit := do
   let v : Bmp.Variant :=
     { eorGaugeStale := !(args.contains "eorgauge=repaired"),
       eorAnyUpdate := !(args.contains "eorswallow=repaired") }
-  loop v (args.contains "promescape=repaired") (← IO.getStdin) (← IO.getStdout)
+  loop v (args.contains "promescape=repaired") (args.contains "promgroup=repaired") (← IO.getStdin) (← IO.getStdout)
